@@ -13,6 +13,10 @@ type storeItem struct {
 }
 
 type StoreState struct {
+	// parent != nil: a branch made by sdk.Context.CacheContext. Reads see the parent's entries
+	// under the branch's own; writes stay in the branch until commit appends them to the parent.
+	parent   *StoreState
+	marks    map[string]bool // dependency-call markers (verifrt.envMark), branch-local until commit
 	log      []storeEntry
 	txMark   int
 	reads    []*SliceV
@@ -27,6 +31,7 @@ type EnvState struct {
 	eventMark     int
 	eventsMayFail bool
 	eventErrs     int
+	branchEvents  map[*StoreState][]Value // events of CacheContext branches not yet written
 }
 
 func (e *Exec) storeKeyCheck(k *SliceV, what string) {
@@ -48,17 +53,49 @@ func (e *Exec) snapshotBytes(s *SliceV) *SliceV {
 	return (&SliceV{a: a, len: s.len, gocap: s.len, isNil: s.isNil, minLen: s.minLen, isStr: false}).withMax(n)
 }
 
+// fullLog is the write log a reader of st sees: the ancestors' entries, then its own.
+func (st *StoreState) fullLog() []storeEntry {
+	if st.parent == nil {
+		return st.log
+	}
+	return append(append([]storeEntry{}, st.parent.fullLog()...), st.log...)
+}
+
+func (st *StoreState) root() *StoreState {
+	for st.parent != nil {
+		st = st.parent
+	}
+	return st
+}
+
+// commit applies a branch to its parent (cachekv Write): its writes become the parent's latest.
+func (st *StoreState) commit() {
+	if st.parent == nil {
+		return
+	}
+	st.parent.log = append(st.parent.log, st.log...)
+	st.log = nil
+	for k := range st.marks {
+		if st.parent.marks == nil {
+			st.parent.marks = map[string]bool{}
+		}
+		st.parent.marks[k] = true
+	}
+	st.marks = nil
+}
+
 func (e *Exec) storeGet(st *StoreState, key *SliceV) *SliceV {
 	tb := e.tb
 	e.storeKeyCheck(key, "store get")
-	if st.recReads {
+	if rt := st.root(); rt.recReads {
 		// key capture for observational entry names: the read itself is not performed (no forks);
 		// the reader sees a present, empty value
-		st.reads = append(st.reads, e.snapshotBytes(key))
+		rt.reads = append(rt.reads, e.snapshotBytes(key))
 		return &SliceV{len: tb.BV(0, 64), gocap: tb.BV(0, 64), isNil: tb.ff}
 	}
-	for i := len(st.log) - 1; i >= 0; i-- {
-		en := st.log[i]
+	full := st.fullLog()
+	for i := len(full) - 1; i >= 0; i-- {
+		en := full[i]
 		if e.branch(e.bytesEqual(en.key, key)) {
 			if en.val == nil {
 				return &SliceV{len: tb.BV(0, 64), gocap: tb.BV(0, 64), isNil: tb.tt}
@@ -86,7 +123,7 @@ func (e *Exec) storeDelete(st *StoreState, key *SliceV) {
 // sorted by key (byte-lexicographic). Equalities and order are decided by forking.
 func (e *Exec) liveItems(st *StoreState, prefix *SliceV) []storeItem {
 	var items []storeItem
-	for _, en := range st.log {
+	for _, en := range st.fullLog() {
 		if prefix != nil && !e.branch(e.hasPrefix(en.key, prefix)) {
 			continue
 		}
@@ -223,7 +260,12 @@ func (e *Exec) modelMethod(mo *ModelObj, name string, args []Value) Value {
 		}
 	case "storeservice":
 		if name == "OpenKVStore" {
-			return &IfaceV{t: modelDynType, v: &ModelObj{kind: "corestore", st: mo.st}}
+			st := mo.st
+			// a context made by CacheContext opens the branch, not the transaction's store
+			if c := ctxModel(args[0]); c != nil && c.st != nil && c.st.root() == mo.st {
+				st = c.st
+			}
+			return &IfaceV{t: modelDynType, v: &ModelObj{kind: "corestore", st: st}}
 		}
 	case "corestore": // cosmossdk.io/core/store.KVStore (methods return errors)
 		switch name {
@@ -305,7 +347,7 @@ func (e *Exec) modelMethod(mo *ModelObj, name string, args []Value) Value {
 	case "ctx":
 		switch name {
 		case "EventManager":
-			return &IfaceV{t: modelDynType, v: &ModelObj{kind: "eventmanager", env: mo.env}}
+			return &IfaceV{t: modelDynType, v: &ModelObj{kind: "eventmanager", env: mo.env, st: mo.st}}
 		case "Value", "Deadline", "Done", "Err":
 			e.fail("context method %s", name)
 		case "Logger":
@@ -317,7 +359,7 @@ func (e *Exec) modelMethod(mo *ModelObj, name string, args []Value) Value {
 	case "eventmanager":
 		switch name {
 		case "EmitTypedEvent":
-			return e.emitTypedEvent(mo.env, args[0])
+			return e.emitTypedEventTo(mo, args[0])
 		case "EmitEvent", "EmitEvents", "EmitTypedEvents":
 			e.fail("untyped event emission not modelled")
 		}
@@ -331,6 +373,67 @@ func (e *Exec) modelMethod(mo *ModelObj, name string, args []Value) Value {
 	}
 	e.fail("model object %s has no method %s", mo.kind, name)
 	return nil
+}
+
+// ctxModel finds the modelled sdk.Context behind a context value (nil if it is something else).
+func ctxModel(v Value) *ModelObj {
+	switch x := v.(type) {
+	case *ModelObj:
+		if x.kind == "ctx" {
+			return x
+		}
+	case *IfaceV:
+		if x.t != nil {
+			return ctxModel(x.v)
+		}
+	}
+	return nil
+}
+
+// cacheContext: sdk.Context.CacheContext. The branch has its own store layer and its own event
+// manager; the returned function emits the branch's events on the parent and writes the layer.
+func (e *Exec) cacheContext(c *ModelObj) Value {
+	parent := c.st
+	if parent == nil {
+		parent = c.env.stores[0]
+	}
+	child := &StoreState{parent: parent, name: parent.name + "/branch"}
+	cc := &ModelObj{kind: "ctx", env: c.env, st: child, data: map[string]Value{}}
+	return TupleV{cc, &FuncV{intrinsic: "ctx.writeCache", recv: cc}}
+}
+
+func (e *Exec) writeCache(cc *ModelObj) {
+	env := cc.env
+	if env.branchEvents != nil {
+		evs := env.branchEvents[cc.st]
+		delete(env.branchEvents, cc.st)
+		for _, ev := range evs {
+			if p := cc.st.parent; p.parent != nil {
+				env.branchEvents[p] = append(env.branchEvents[p], ev)
+			} else {
+				env.events = append(env.events, ev)
+			}
+		}
+	}
+	cc.st.commit()
+}
+
+// emitTypedEventTo: events of a branch context are buffered until the branch is written.
+func (e *Exec) emitTypedEventTo(em *ModelObj, arg Value) Value {
+	env := em.env
+	if em.st == nil || em.st.parent == nil {
+		return e.emitTypedEvent(env, arg)
+	}
+	n := len(env.events)
+	r := e.emitTypedEvent(env, arg)
+	if len(env.events) > n {
+		if env.branchEvents == nil {
+			env.branchEvents = map[*StoreState][]Value{}
+		}
+		env.branchEvents[em.st] = append(env.branchEvents[em.st], env.events[n:]...)
+		env.events = env.events[:n]
+	}
+	return r
 }
 
 func (e *Exec) emitTypedEvent(env *EnvState, arg Value) Value {
